@@ -59,6 +59,9 @@ CHECKS = {
  "C20": dict(cat="exploration", technique="`python -m ffcx` executed in throw-away directories; stand-alone gcc build + nm of the written files; alias monitor; kernels reached through the alias symbols compared bitwise with the JIT path's source (same flags) and with the oracle; option-source lattice",
    text="Demo and generated UFL files (named forms, expressions, elements, file names needing sanitising, -i/-o/-n/-d styles, scalar types, numba) are compiled by the command-line entry point; the source must compile alone, define everything the header declares, expose exactly the named aliases, and the kernels behind the aliases must equal the JIT kernels bitwise and the oracle; each option is run under all 8 subsets of {CLI, $PWD json, $XDG json} and the effective value must follow the documented priority.",
    note="`python -m ffcx` stands for the console script. One defect found and fixed (store_true defaults).", ref="3/C20"),
+ "C03": dict(cat="exploration", technique="metamorphic runtime monitor over local vertex numberings of two physical cells sharing a facet (global-dof comparison), geometric determination of coincidence-making permutation codes, kernel-evaluated coincidence probe, oracle on samples, flag monitor",
+   text="One compiled interior-facet kernel per (cell, form) is called for all / sampled pairs of local numberings (cell automorphisms) of two physical cells and all permutation code pairs that make the facet points coincide; results mapped to global dofs must equal the reference numbering; the kernel's own int|x+ - x-|^2 must vanish for those codes; sampled results must equal the oracle; kernels flagged needs_facet_permutations=false must not depend on the codes.",
+   note="Exhaustive for interval/triangle/quadrilateral numbering pairs in both tiers, tetrahedron in thorough; hexahedron sampled. Convention agreement with DOLFINx is out of reach.", ref="3/C03"),
 }
 NA_REASON = "check not built yet in this round (runtime monitoring applies; see DESIGN.md section 3)"
 
